@@ -6,9 +6,9 @@ Paths are mostly grown by walking the generated document so that they select som
 import random
 
 KEYS = ["a", "b", "c", "d", "x", "y", "z", "k"]
-ODD_KEYS = ["", "0", "-1", "a.b", "a[0]", "$", "\u00e9", " ", "x-y", "*"]      # valid JSON member names all the same
+ODD_KEYS = ["", "0", "-1", "a.b", "a[0]", "$", "\u00e9", " ", "x-y", "*", "A", "K", "a ", " a", "True", "None"]      # valid JSON member names all the same
 RESERVED_KEYS = ["parent", "wc", "rec", "shape", "wildcard", "gwc", "recursive", "generic_wildcard"]
-SCALARS = [None, True, False, 0, 1, 2, -1, 3, 0.0, 1.5, -2.5, "", "a", "x", "12", "-3", "abc"]
+SCALARS = [None, True, False, 0, 1, 2, -1, 3, 0.0, 1.5, -2.5, "", "a", "x", "12", "-3", "abc", 1.0, 2 ** 70, -(2 ** 70), "x" * 120]
 FNS = ["int", "len", "truth", "not", "neg", "abs", "first", "boom_if_str", "ident"]
 OPS = ["lt", "le", "eq", "ne", "gt", "ge"]
 OUT_VALUES = [True, False, 1, 0, "", "x", ["a", [0]], ["a", []], None, ["o", []], ["f", 0], ["f", 3], 2]
